@@ -56,6 +56,9 @@ def _check_path(path):
     if not path:
         raise InvalidPathError("Path is empty")
 
+    # Paths may be given as path objects, but the check below needs the string.
+    path = fspath(path)
+
     result = _has_nonprintable_char(path)
     if result is not None:
         clean_path, char, pos = result
